@@ -325,7 +325,7 @@ class Ctx:
     def pick_labels(self, stream, c):
         """-> (case carrying its label mode, label mode): a share of the cases of the checks that opted in (ZERO_LABELS) is put to the
         implementation with candidates numbered from 0 or as opaque objects; a reported case keeps its mode (_labels) for the replay"""
-        lm = c.get('_labels') or ({0: 'ints0', 1: 'objs'}.get(int(common.case_hash({k: v for k, v in c.items() if not k.startswith('_')}), 16) % 6, 'std')
+        lm = c.get('_labels') or ({0: 'ints0', 1: 'objs', 2: 'fsets' if getattr(self.mod, 'FSET_LABELS', False) else 'std'}.get(int(common.case_hash({k: v for k, v in c.items() if not k.startswith('_')}), 16) % 6, 'std')
                                    if (self.zero_labels is True or (self.zero_labels and stream in self.zero_labels)) and stream != 'replay'
                                    and stream not in getattr(self.mod, 'NO_LABEL_STREAMS', ()) else 'std')
         if lm != 'std':
